@@ -30,15 +30,29 @@ pub uninterp spec fn v_position_after(s: &str, p: Position) -> Position;
 //@trait INP Input nosuper methods=position_after,span_from
 //@  raw
 //@  |     spec fn v_after(&self, p: Position) -> Position;
+//@  |     /// the end offset is representable (bytes: position + length does not overflow; str: checked by Kani, no condition here)
+//@  |     spec fn after_ok(&self, p: Position) -> bool;
 //@  fn position_after ret=r
+//@  |         requires self.after_ok(position),
 //@  |         ensures r == self.v_after(position),
 //@  fn span_from ret=r
+//@  |         requires self.after_ok(position),
 //@  |         ensures r.start == position, r.end == self.v_after(position), // [C13]
+//@end
+
+// <[u8] as Input>::position_after: bytes have no lines: the offset moves by the length, line/column stay absent (C13)
+//@impl INP /^impl Input for \[ u8 \]/
+//@  raw
+//@  |     open spec fn v_after(&self, p: Position) -> Position { Position { pos: (p.pos + self@.len()) as usize, line_col: None } }
+//@  |     open spec fn after_ok(&self, p: Position) -> bool { p.pos + self@.len() <= usize::MAX }
+//@  fn position_after ret=r
+//@  |         ensures r.pos == position.pos + self@.len(), r.line_col is None, // [C13]
 //@end
 
 //@impl INP /^impl Input for str/
 //@  raw
 //@  |     open spec fn v_after(&self, p: Position) -> Position { v_position_after(self, p) }
+//@  |     open spec fn after_ok(&self, p: Position) -> bool { true }
 //@  fn position_after xbody
 //@end
 
